@@ -221,13 +221,13 @@ def pass_a(blobs, decoded, wd):
     return [json.loads(x) for x in open(decoded) if x.strip()]
 
 
-def tv_once(module, trace, decoded, wd, extra_env=None, timeout=1800, overrides=False):
+def tv_once(module, trace, decoded, wd, extra_env=None, timeout=1800, overrides=False, cfg=None):
     """validate one ndjson trace; returns None if accepted, else the 1-based index of the first
     unmatched event"""
     env = {"TRACE": trace, "DECODED": decoded}
     if extra_env:
         env.update(extra_env)
-    r = tlc(module, wd=wd, workers=1, env=env, deque=True, timeout=timeout, overrides=overrides)
+    r = tlc(module, cfg=cfg, wd=wd, workers=1, env=env, deque=True, timeout=timeout, overrides=overrides)
     rej = None
     for line in r.printed:
         m = re.match(r'^<<"TV_REJECT", (\d+)>>', line)
@@ -256,7 +256,7 @@ def split_runs(lines, reset_key="reset"):
     return runs
 
 
-def tv_all(module, trace, decoded, wd, max_rejects=3, extra_env=None, overrides=False, shards=1):
+def tv_all(module, trace, decoded, wd, max_rejects=3, extra_env=None, overrides=False, shards=1, cfg=None):
     """validate a multi-run trace; every rejected run is found by removing it and validating the
     rest again.  Returns (n_runs_accepted, rejects) with rejects = list of dicts."""
     lines = [l for l in open(trace).read().split("\n") if l.strip()]
@@ -264,11 +264,11 @@ def tv_all(module, trace, decoded, wd, max_rejects=3, extra_env=None, overrides=
     if not runs:
         raise ToolError("trace %s has no runs" % trace)
     if shards > 1 and len(runs) > shards:
-        return _tv_sharded(module, lines, runs, decoded, wd, max_rejects, extra_env, overrides, shards)
-    return _tv_seq(module, lines, runs, decoded, wd, max_rejects, extra_env, overrides, "s0")
+        return _tv_sharded(module, lines, runs, decoded, wd, max_rejects, extra_env, overrides, shards, cfg)
+    return _tv_seq(module, lines, runs, decoded, wd, max_rejects, extra_env, overrides, "s0", cfg)
 
 
-def _tv_seq(module, lines, runs, decoded, wd, max_rejects, extra_env, overrides, tag):
+def _tv_seq(module, lines, runs, decoded, wd, max_rejects, extra_env, overrides, tag, cfg=None):
     rejects = []
     alive = list(runs)
     it = 0
@@ -283,7 +283,7 @@ def _tv_seq(module, lines, runs, decoded, wd, max_rejects, extra_env, overrides,
                 for l in lines[s:e]:
                     f.write(l + "\n")
                 n += e - s
-        res = tv_once(module, cur, decoded, wd, extra_env=extra_env, overrides=overrides)
+        res = tv_once(module, cur, decoded, wd, extra_env=extra_env, overrides=overrides, cfg=cfg)
         if res is None:
             break
         kind, what, idx, r = res
@@ -304,11 +304,11 @@ def _tv_seq(module, lines, runs, decoded, wd, max_rejects, extra_env, overrides,
     return len(runs) - len(rejects), rejects
 
 
-def _tv_sharded(module, lines, runs, decoded, wd, max_rejects, extra_env, overrides, shards):
+def _tv_sharded(module, lines, runs, decoded, wd, max_rejects, extra_env, overrides, shards, cfg=None):
     from concurrent.futures import ThreadPoolExecutor
     chunks = [runs[i::shards] for i in range(shards)]
     def work(k):
-        return _tv_seq(module, lines, chunks[k], decoded, wd, max_rejects, extra_env, overrides, "s%d" % k)
+        return _tv_seq(module, lines, chunks[k], decoded, wd, max_rejects, extra_env, overrides, "s%d" % k, cfg)
     acc, rej = 0, []
     with ThreadPoolExecutor(max_workers=shards) as ex:
         for a, r in ex.map(work, range(len(chunks))):
